@@ -131,6 +131,7 @@ CHECKS = {
                   "operations (crash index 1..8); one acknowledged command unit and one acknowledged remote unit followed by 1-2 updates with a crash "
                   "at any operation, then the real restart scan; restart on a record in each of the 5 states; status query for a unit only on disk",
         "no_native": ["Verif_C04_rewrite_crash_index", "Verif_C04_acked_unit_survives", "Verif_C04_remote_binding_survives"],
+        "crash_native": {"Verif_C04_rewrite_crash_index": "native/c04_crash.py"},
         "assumptions": ["file-system model: every state-changing operation (create, truncate, write, mkdir, remove) is atomic (process kill, not power loss)",
                         "unit IDs fixed by the harness (randomness stubbed)"],
         "outside": ["the detached runner process and real process signalling", "fsync / power loss", "kernel-level atomicity of a single write",
